@@ -246,11 +246,13 @@ func (s *Server) cmdSearchArgs(
 			return
 		}
 		var lat, lon, meters float64
-		if lat, err = strconv.ParseFloat(slat, 64); err != nil {
+		if lat, err = strconv.ParseFloat(slat, 64); err != nil ||
+			math.IsNaN(lat) || math.IsInf(lat, 0) {
 			err = errInvalidArgument(slat)
 			return
 		}
-		if lon, err = strconv.ParseFloat(slon, 64); err != nil {
+		if lon, err = strconv.ParseFloat(slon, 64); err != nil ||
+			math.IsNaN(lon) || math.IsInf(lon, 0) {
 			err = errInvalidArgument(slon)
 			return
 		}
@@ -258,7 +260,7 @@ func (s *Server) cmdSearchArgs(
 		if cmd == "nearby" {
 			if vs, smeters, ok = tokenval(vs); ok && smeters != "" {
 				meters, err = strconv.ParseFloat(smeters, 64)
-				if err != nil || meters < 0 {
+				if err != nil || meters < 0 || math.IsNaN(meters) || math.IsInf(meters, 0) {
 					err = errInvalidArgument(smeters)
 					return
 				}
@@ -286,11 +288,13 @@ func (s *Server) cmdSearchArgs(
 			return
 		}
 		var lat, lon, meters float64
-		if lat, err = strconv.ParseFloat(slat, 64); err != nil {
+		if lat, err = strconv.ParseFloat(slat, 64); err != nil ||
+			math.IsNaN(lat) || math.IsInf(lat, 0) {
 			err = errInvalidArgument(slat)
 			return
 		}
-		if lon, err = strconv.ParseFloat(slon, 64); err != nil {
+		if lon, err = strconv.ParseFloat(slon, 64); err != nil ||
+			math.IsNaN(lon) || math.IsInf(lon, 0) {
 			err = errInvalidArgument(slon)
 			return
 		}
@@ -299,7 +303,7 @@ func (s *Server) cmdSearchArgs(
 			return
 		}
 		meters, err = strconv.ParseFloat(smeters, 64)
-		if err != nil || meters < 0 {
+		if err != nil || meters < 0 || math.IsNaN(meters) || math.IsInf(meters, 0) {
 			err = errInvalidArgument(smeters)
 			return
 		}
@@ -345,11 +349,13 @@ func (s *Server) cmdSearchArgs(
 			return
 		}
 		var lat, lon, meters, b1, b2 float64
-		if lat, err = strconv.ParseFloat(slat, 64); err != nil {
+		if lat, err = strconv.ParseFloat(slat, 64); err != nil ||
+			math.IsNaN(lat) || math.IsInf(lat, 0) {
 			err = errInvalidArgument(slat)
 			return
 		}
-		if lon, err = strconv.ParseFloat(slon, 64); err != nil {
+		if lon, err = strconv.ParseFloat(slon, 64); err != nil ||
+			math.IsNaN(lon) || math.IsInf(lon, 0) {
 			err = errInvalidArgument(slon)
 			return
 		}
